@@ -54,4 +54,30 @@ func c03GenBuffer(s *src, o *out) {
 	if n := len(c03CharLits(s, s.fn("trzszBuffer.readBinary"))); n != 0 {
 		die("readBinary now contains %d character literals", n)
 	}
+	// the queue between the pumps and the reader: its capacity, and whether the producer
+	// waits when it is full.  Both are VALUES: addBuffer is "blocking" exactly when its body is
+	// the single statement `b.bufCh <- buf`; anything else (a select with a default, a
+	// length test, ...) gives false and Proofs/BufQueue.v no longer has its premise.
+	nb := s.fn("newTrzszBuffer")
+	capacity := int64(-1)
+	ast.Inspect(nb.Body, func(n ast.Node) bool {
+		if kv, ok := n.(*ast.KeyValueExpr); ok && s.text(kv.Key) == "bufCh" {
+			if c, ok := kv.Value.(*ast.CallExpr); ok && len(c.Args) == 2 && s.text(c.Fun) == "make" && s.text(c.Args[0]) == "chan []byte" {
+				capacity = s.evalInt(c.Args[1], nil, 0)
+			}
+		}
+		return true
+	})
+	if capacity < 0 {
+		die("newTrzszBuffer: no `bufCh: make(chan []byte, n)`")
+	}
+	o.defN("buffer_queue_capacity", capacity)
+	ab := s.fn("trzszBuffer.addBuffer")
+	blocking := false
+	if len(ab.Body.List) == 1 {
+		if snd, ok := ab.Body.List[0].(*ast.SendStmt); ok && s.text(snd.Chan) == "b.bufCh" && s.text(snd.Value) == "buf" {
+			blocking = true
+		}
+	}
+	o.raw("Definition buffer_add_blocks : bool := %v.\n", blocking)
 }
